@@ -96,6 +96,36 @@ def trees(ctx):
         if not np.isfinite(d) or d > 2e-5 * max(1, n):
             ctx.violation("SIR_pair_based_pure_IC differs from the exact master-equation expectation on a tree: max |diff| = %.3g" % d,
                           dict(rep, maxdiff=d))
+            continue
+        # the same graph object again after its weights were edited in place through the networkx views (item assignment
+        # does not go through add_edge / set_*_attributes): exactness is a statement about the graph as it is now
+        if weighted and k % 2 == 0:
+            edits = []
+            for u, v in G.edges():
+                if ctx.rng.random() < 0.6:
+                    G[u][v]["w"] = ctx.rng.choice([0.25, 1.5, 4.0]); edits.append(["edge", u, v, G[u][v]["w"]])
+            for u in G:
+                if ctx.rng.random() < 0.4:
+                    G.nodes[u]["r"] = ctx.rng.choice([0.25, 1.5, 4.0]); edits.append(["node", u, G.nodes[u]["r"]])
+            if not edits:
+                e0 = next(iter(G.edges()))
+                G.edges[e0]["w"] = 4.0; edits.append(["edge", e0[0], e0[1], 4.0])
+            rep2 = dict(rep, stream="tree-exactness:same-object-after-in-place-weight-edit", edits=edits,
+                        weights=dict(edge=[G.edges[e].get("w") for e in G.edges()], node=[G.nodes[u].get("r") for u in G]))
+            ctx.case(rep2, nontrivial=True)
+            ctx.count("trees:in-place-edit")
+            try:
+                res = EoN.SIR_pair_based_pure_IC(G, tau, gamma, infs, initial_recovereds=recs or None, tmin=0, tmax=3, tcount=7, **kw)
+            except Exception as e:
+                ctx.violation("SIR_pair_based_pure_IC raised %s on a tree (second call on the same object)" % type(e).__name__,
+                              dict(rep2, error=type(e).__name__))
+                continue
+            exact = master_equation(G, nodes, tau, gamma, ew, nw, set(infs), set(recs), times)
+            got = np.array([np.asarray(x, dtype=float) for x in res[1:4]])
+            d = float(np.max(np.abs(got - exact)))
+            if not np.isfinite(d) or d > 2e-5 * max(1, n):
+                ctx.violation("SIR_pair_based_pure_IC differs from the exact master-equation expectation on a tree whose weights "
+                              "were edited in place after an earlier call: max |diff| = %.3g" % d, dict(rep2, maxdiff=d))
 
 
 def final_sizes(ctx):
